@@ -29,6 +29,9 @@ def decide(run, recs, res, errors, theorems, module):
     if module == "C14":
         broken += source_corollaries(run, "C14s", ['C14s_drop_last', 'C14s_slice', 'C14s_peak_eq', 'C14s_fused_stepwise'], ('peak',))
     if module == "C13":
+        # frame laws: what each operation leaves unchanged (generic in the numeric interpretation)
+        broken += standard_proof_obligations(run, "C13a", ["C13a_shift_frame", "C13a_scale_by_frame", "C13a_normalize_frame",
+                                                           "C13a_ignore_below_frame", "C13a_truncate_after_frame", "C13a_nonvacuous"])
         # floating-point level: normalize in rounded arithmetic, instantiated at Coq's primitive binary64 floats
         broken += standard_proof_obligations(run, "C13f", ["C13_normalize_rounded", "C13_binary64_std", "C13_normalize_binary64", "C13_float_nonvacuous"],
                                              allowed_axioms=STD_FLOAT_AXIOMS)
